@@ -5,7 +5,7 @@
 --inplace applies the patch to /repo itself (git -C /repo apply … ; git -C /repo checkout -- .) instead."""
 import json, os, subprocess, sys, time
 
-MT = "/tmp/mt/repo"
+MT = os.environ.get("SEED_WT", "/tmp/mt/repo")
 
 
 def sh(cmd, cwd=None, env=None, timeout=7200):
@@ -22,7 +22,7 @@ def main():
     repo = "/repo" if inplace else MT
     if not inplace:
         if not os.path.isdir(MT):
-            os.makedirs("/tmp/mt", exist_ok=True)
+            os.makedirs(os.path.dirname(MT), exist_ok=True)
             subprocess.run(["git", "-C", "/repo", "worktree", "add", "--detach", MT, "HEAD"], check=True, capture_output=True)
         head = subprocess.run(["git", "-C", "/repo", "rev-parse", "HEAD"], capture_output=True, text=True).stdout.strip()
         sh("git checkout -q -- . && git checkout -q --detach %s" % head, cwd=MT)
